@@ -1,12 +1,12 @@
 package main
 
 import (
-	"hash/crc32"
-	"io"
 	"bytes"
 	"crypto"
 	"crypto/sha256"
 	"fmt"
+	"hash/crc32"
+	"io"
 	"os"
 	"path/filepath"
 	"strings"
@@ -71,7 +71,9 @@ func fieldAfter(s, key string) string {
 func c01Image(c *Ctx, cs Case, img []byte, cls string, positions []int) {
 	if os.Getenv("VERIF_DEBUG") != "" {
 		t0 := time.Now()
-		defer func() { fmt.Fprintf(os.Stderr, "c01Image %s len=%d flips=%d %v\n", cls, len(img), len(positions), time.Since(t0)) }()
+		defer func() {
+			fmt.Fprintf(os.Stderr, "c01Image %s len=%d flips=%d %v\n", cls, len(img), len(positions), time.Since(t0))
+		}()
 	}
 	c.Count(cs.Key(), len(img) > 256, "image/"+cls)
 	c.Sample(cs)
